@@ -38,6 +38,8 @@ def sym(name):
         "PROTO": lambda: fk.Proto.create(3),
         "STR_os": lambda: fk.ShortBinUnicode("os"),
         "STR_system": lambda: fk.ShortBinUnicode("system"),
+        "STR_nonstd": lambda: fk.ShortBinUnicode("vp_objs"),
+        "GLOBAL_nonstd_OD": lambda: fk.Global.create("vp_objs", "OrderedDict"),
     }[name]()
 
 
@@ -56,6 +58,12 @@ def build_ops(tier, full=True):
             for o in ("K1", "STR_os", "STR_system"):
                 ops.append(("set", i, o))
         ops += [("insert", 0, "STR_os"), ("insert", 1, "STR_system")]
+        # the module a called global comes from changes from the standard library to a non-standard one
+        for i in (1, 2, 3):
+            ops.append(("set", i, "STR_nonstd"))
+        ops += [("set", 1, "GLOBAL_nonstd_OD"), ("set", 2, "GLOBAL_nonstd_OD")]
+        # a helper that raises after it has already inserted part of its opcodes (unencodable argument)
+        ops += [("insert_python_bad",), ("append_python_bad",)]
     for i in (0, 1, -1, "end"):
         for o in SIG6:
             ops.append(("insert", i, o))
@@ -157,6 +165,10 @@ def do_edit(p, op, model=None):
         p.insert_python_exec(op[1])
     elif k == "append_python":
         p.append_python(op[1])
+    elif k == "insert_python_bad":
+        p.insert_python(("unencodable", object()), module="os", attr="system")
+    elif k == "append_python_bad":
+        p.append_python(object(), module="os", attr="system")
     elif k == "insert_magic_int":
         p.insert_magic_int(op[1])
     elif k == "insert_python_obj":
